@@ -84,7 +84,7 @@ theorem step_mid (m r : List Char) (hm : DotFree m) (hr : DotFree r) (a b : List
   unfold fEq
   by_cases h : r = m <;> simp [h]
 
-theorem step_pre (h o : List Char) (hh : DotFree h) (ho : DotFree o) (hlen : o.length = h.length)
+theorem step_pre (h o : List Char) (hh : DotFree h) (ho : DotFree o)
     (hno : ∀ x, ¬ h <+: o ++ x) (a b : List Char) :
     mapBlocks (fPre h o) (a ++ ('.' :: h) ++ b) = mapBlocks (fPre h o) (a ++ ('.' :: o) ++ b) := by
   rw [decomp_pre, decomp_pre]
@@ -99,7 +99,7 @@ theorem step_pre (h o : List Char) (hh : DotFree h) (ho : DotFree o) (hlen : o.l
   rw [if_pos (List.prefix_append _ _), if_neg (hno _)]
   simp
 
-theorem step_suf (h o : List Char) (hh : DotFree h) (ho : DotFree o) (hlen : o.length = h.length)
+theorem step_suf (h o : List Char) (hh : DotFree h) (ho : DotFree o)
     (hno : ∀ x, ¬ h <:+ x ++ o) (a b : List Char) :
     mapBlocks (fSuf h o) (a ++ (h ++ ['.']) ++ b) = mapBlocks (fSuf h o) (a ++ (o ++ ['.']) ++ b) := by
   rw [decomp_suf, decomp_suf]
